@@ -210,6 +210,35 @@ def fmt_compare(interp, t, a, b):
                 return t is ast.NotEq
         if not isinstance(a, (str, bytes, FmtStr)) or not isinstance(b, (str, bytes, FmtStr)):
             return t is ast.NotEq
+        # literal* Dec literal* against a concrete text: equal iff the affixes match and the integer is the one spelled
+        if other is not None and isinstance(sym, FmtStr):
+            decs = [i for i, x in enumerate(sym.tokens) if not isinstance(x, Lit)]
+            if len(decs) == 1 and isinstance(sym.tokens[decs[0]], Dec) and sym.tokens[decs[0]].minwidth == 0:
+                i = decs[0]
+                pre = ''.join(x.text for x in sym.tokens[:i])
+                suf = ''.join(x.text for x in sym.tokens[i + 1:])
+                r = False
+                if otext.startswith(pre) and otext.endswith(suf) and len(otext) >= len(pre) + len(suf):
+                    mid = otext[len(pre):len(otext) - len(suf)]
+                    if re.fullmatch(r'-?(0|[1-9][0-9]*)', mid) and mid != '-0':
+                        r = SBool(sym.tokens[i].term == int(mid))
+                if t is ast.NotEq:
+                    r = (not r) if isinstance(r, bool) else SBool(z3.Not(r.t))
+                return r
+        # fall back to the z3 string encoding of both sides
+        try:
+            za = fmt_to_sstr(a) if isinstance(a, FmtStr) else a
+            zb = fmt_to_sstr(b) if isinstance(b, FmtStr) else b
+        except Unsupported:
+            raise Unsupported("comparison of token strings")
+        if isinstance(za, (SStr, SBytes)) or isinstance(zb, (SStr, SBytes)):
+            x, y = (za, zb) if isinstance(za, (SStr, SBytes)) else (zb, za)
+            r = x.__eq__(y)
+            if r is NotImplemented:
+                r = False
+            if t is ast.NotEq:
+                r = (not r) if isinstance(r, bool) else SBool(z3.Not(r.t))
+            return r
     raise Unsupported("comparison of token strings")
 
 
